@@ -206,6 +206,8 @@ func (c *AbstractTokenizer) ReadNextToken() *Token {
 		}
 
 		// Get state for character
+		// (a token skipped by the previous iteration must not be seen again)
+		token = nil
 		state := c.GetCharacterState(nextChar)
 		if state != nil {
 			token = state.NextToken(c.Scanner, c)
